@@ -20,6 +20,7 @@ import (
 	"encoding/json"
 	"fmt"
 	"io"
+	"net"
 	"net/http"
 	"net/http/httptest"
 	"os"
@@ -441,6 +442,9 @@ func runCase(in input) []hlib.Case {
 
 func runCase1(in input) (hlib.Case, *hlib.Case) {
 	logrus.SetOutput(io.Discard)
+	if in.Mode == "server" {
+		return runServer(in), nil
+	}
 	var monitors []string
 	var monMu sync.Mutex
 	mon := func(f string, a ...interface{}) {
@@ -961,6 +965,226 @@ func runCase1(in input) (hlib.Case, *hlib.Case) {
 }
 
 // ---------------------------------------------------------------------------------------
+// the real statsd.Server: RunWithCustomSocket with a loopback UDP socket, the HTTP ingestion server
+// it builds from its viper configuration, DefaultTags, a scripted cache as CachedInstances and
+// capturing backends.  The same kind of events enter as UDP lines and as POST /v2/event messages;
+// whichever way they came, every backend must get them once with static (and instance) tags.
+
+func runServer(in input) hlib.Case {
+	c := hlib.Case{Input: in, Class: "server/" + in.Stream}
+	mon := func(f string, a ...interface{}) {
+		if len(c.Monitors) < 10 {
+			c.Monitors = append(c.Monitors, fmt.Sprintf(f, a...))
+		}
+	}
+	conn, err := net.ListenPacket("udp4", "127.0.0.1:0")
+	if err != nil {
+		c.Class = "server/no-loopback"
+		return c
+	}
+	probe, err := net.Listen("tcp4", "127.0.0.1:0")
+	if err != nil {
+		conn.Close()
+		c.Class = "server/no-loopback"
+		return c
+	}
+	httpAddr := probe.Addr().String()
+	probe.Close()
+
+	log := &tlog{}
+	sh := &shared{log: log}
+	backends := make([]gostatsd.Backend, in.NB)
+	caps := make([]*capBackend, in.NB)
+	for i := range backends {
+		var d, f []int
+		if i < len(in.Delays) {
+			d = in.Delays[i]
+		}
+		if i < len(in.Fails) {
+			f = in.Fails[i]
+		}
+		caps[i] = &capBackend{idx: i, delays: d, fails: f, sh: sh}
+		backends[i] = caps[i]
+	}
+	ctx, cancel := context.WithCancel(context.Background())
+	defer cancel()
+	v := viper.New()
+	v.Set("http-servers", []string{"ing"})
+	v.Set("http.ing.address", httpAddr)
+	v.Set("http.ing.enable-ingestion", true)
+	srv := statsd.Server{
+		Backends:              backends,
+		DefaultTags:           append(gostatsd.Tags{}, in.Static...),
+		ExpiryIntervalCounter: time.Minute, ExpiryIntervalGauge: time.Minute, ExpiryIntervalSet: time.Minute, ExpiryIntervalTimer: time.Minute,
+		FlushInterval:         time.Second,
+		MaxReaders:            1,
+		MaxParsers:            2,
+		MaxWorkers:            1,
+		MaxQueueSize:          100,
+		MaxConcurrentEvents:   in.Cap,
+		ReceiveBatchSize:      4,
+		Namespace:             in.NS,
+		StatserType:           gostatsd.StatserNull,
+		DisableInternalEvents: true,
+		ServerMode:            "standalone",
+		Viper:                 v,
+	}
+	var ca *cache
+	if in.Cloud {
+		ca = newCache(ctx, in.Senders)
+		srv.CachedInstances = ca
+		ca.wg.Add(1)
+		go ca.serve()
+	}
+	done := make(chan error, 1)
+	go func() { done <- srv.RunWithCustomSocket(ctx, func() (net.PacketConn, error) { return conn, nil }) }()
+	client := &http.Client{Transport: &http.Transport{DisableKeepAlives: true}, Timeout: 3 * time.Second}
+	up := false
+	for i := 0; i < 600 && !up; i++ {
+		if resp, err := client.Get("http://" + httpAddr + "/healthcheck"); err == nil {
+			io.Copy(io.Discard, resp.Body)
+			resp.Body.Close()
+			up = true
+		} else {
+			time.Sleep(5 * time.Millisecond)
+		}
+	}
+	stop := func() {
+		cancel()
+		select {
+		case err := <-done:
+			if err != nil && err != context.Canceled {
+				mon("the server returned %v", err)
+			}
+		case <-time.After(8 * time.Second):
+			mon("the server did not stop within 8 s of cancelling its context")
+		}
+		if ca != nil {
+			waitTimeout(ca.wg.Wait, 2*time.Second)
+		}
+	}
+	if !up {
+		stop()
+		c.Class = "server/inconclusive"
+		c.Obs = "the HTTP server did not come up at " + httpAddr
+		c.Monitors = nil
+		return c
+	}
+	tlo := time.Now().Unix()
+	ll := verifhooks.NewLineLexer(4)
+	nAccepted := 0
+	sender, err := net.Dial("udp4", conn.LocalAddr().String())
+	if err != nil {
+		stop()
+		c.Class = "server/no-loopback"
+		return c
+	}
+	var swg sync.WaitGroup
+	swg.Add(2)
+	go func() { // UDP entry
+		defer swg.Done()
+		for _, dg := range in.Dgs {
+			var msg []byte
+			for k, l := range dg.Lines {
+				if k > 0 {
+					msg = append(msg, '\n')
+				}
+				msg = append(msg, bytesOf(l)...)
+			}
+			sender.Write(msg)
+			time.Sleep(200 * time.Microsecond)
+		}
+	}()
+	go func() { // HTTP entry
+		defer swg.Done()
+		for i, m := range in.Msgs {
+			msg := &pb.EventV2{Title: m.Title, Text: m.Text, DateHappened: m.Date, Hostname: m.Hostname, AggregationKey: m.AggKey,
+				SourceTypeName: m.SrcType, Tags: m.Tags, SourceIP: m.SourceIP, Priority: pb.EventV2_EventPriority(m.Priority), Type: pb.EventV2_AlertType(m.Type)}
+			body, err := proto.Marshal(msg)
+			if err != nil {
+				mon("harness: message %d does not marshal: %v", i, err)
+				continue
+			}
+			resp, err := client.Post("http://"+httpAddr+"/v2/event", "application/x-protobuf", bytes.NewReader(body))
+			if err != nil {
+				mon("post of message %d failed: %v", i, err)
+				continue
+			}
+			io.Copy(io.Discard, resp.Body)
+			resp.Body.Close()
+			if resp.StatusCode != 202 {
+				mon("message %d answered %d", i, resp.StatusCode)
+			}
+		}
+	}()
+	for _, dg := range in.Dgs {
+		for _, l := range dg.Lines {
+			if o := lexgen.Lex(ll, bytesOf(l), in.NS); o.Kind == "event" {
+				nAccepted++
+			}
+		}
+	}
+	nAccepted += len(in.Msgs)
+	swg.Wait()
+	sender.Close()
+	want := int64(nAccepted * in.NB)
+	for i := 0; i < 1500 && atomic.LoadInt64(&sh.rets) < want; i++ {
+		time.Sleep(2 * time.Millisecond)
+	}
+	time.Sleep(2 * time.Millisecond)
+	thi := time.Now().Unix()
+	stop()
+	if m := atomic.LoadInt64(&sh.maxInfl); m > int64(in.Cap) {
+		mon("%d SendEvent calls were in progress at once, max-concurrent-events is %d", m, in.Cap)
+	}
+	recv := make([]string, in.NB)
+	total := 0
+	for b, cb := range caps {
+		cb.mu.Lock()
+		evs := make([]string, len(cb.got))
+		seen := map[string]int{}
+		for i := range cb.got {
+			evs[i] = coqEvent(&cb.got[i])
+			seen[cb.got[i].Title]++
+		}
+		total += len(cb.got)
+		if len(cb.got) != nAccepted {
+			mon("backend %d received %d events, %d were accepted (UDP lines + posted messages)", b, len(cb.got), nAccepted)
+		}
+		for t, n := range seen {
+			if n > 1 && titleID(t) != unknownID {
+				mon("backend %d received event %q %d times", b, t, n)
+			}
+		}
+		cb.mu.Unlock()
+		recv[b] = hlib.List(evs)
+	}
+	senders := make([]string, len(in.Senders))
+	for i, s := range in.Senders {
+		io := "None"
+		if in.Cloud && strings.HasSuffix(s.Kind, "pos") {
+			io = hlib.App("Some", hlib.App("Inst", hlib.Bytes(s.ID), hlib.StrList(s.Tags)))
+		}
+		senders[i] = hlib.Pair(hlib.Bytes(s.IP), io)
+	}
+	var lines, msgs []string
+	for _, dg := range in.Dgs {
+		for _, l := range dg.Lines {
+			lines = append(lines, hlib.Pair(hlib.Nat(0), hlib.Bytes(bytesOf(l))))
+		}
+	}
+	for _, m := range in.Msgs {
+		msgs = append(msgs, hlib.App("PbE", hlib.Bytes(m.Title), hlib.Bytes(m.Text), hlib.Z(m.Date), hlib.Bytes(m.Hostname), hlib.Bytes(m.AggKey),
+			hlib.Bytes(m.SrcType), hlib.StrList(m.Tags), hlib.Bytes(m.SourceIP), hlib.Z(int64(m.Priority)), hlib.Z(int64(m.Type))))
+	}
+	c.Coq = hlib.App("C19", "MServer", hlib.Bytes(in.NS), hlib.StrList(in.Static), hlib.StrList(in.StaticS), hlib.Nat(in.NB), hlib.Nat(in.Cap),
+		hlib.List(senders), hlib.List(lines), hlib.List(msgs), hlib.Z(tlo), hlib.Z(thi), hlib.List(recv), "[]")
+	c.Obs = map[string]interface{}{"accepted_events": nAccepted, "posted": len(in.Msgs), "received_total": total}
+	c.Nontrivial = nAccepted >= 3 && in.NB >= 1 && len(in.Msgs) >= 1
+	return c
+}
+
+// ---------------------------------------------------------------------------------------
 // generators
 
 var tagPool = []string{"env:prod", "env:dev", "region:us", "a:b", "k", "team:x", "é:ü", "v:1", "dup", "static:1", "static:2", "it:x", "it:y"}
@@ -1119,6 +1343,9 @@ func genCase(r *hlib.Rand, k int) input {
 	if k%20 == 19 {
 		in.Stream = "overlap" // ingest
 	}
+	if k%20 == 6 {
+		in.Mode, in.Stream = "server", "both-entries"
+	}
 	in.NB = hlib.Pick(r, []int{0, 1, 1, 2, 2, 2, 3, 3})
 	in.Cap = r.Range(1, 4)
 	in.Cloud = r.Chance(4, 5)
@@ -1171,6 +1398,28 @@ func genCase(r *hlib.Rand, k int) input {
 	extra = append(extra, in.Static...)
 	for _, s := range in.Senders {
 		extra = append(extra, s.Tags...)
+	}
+	if in.Mode == "server" {
+		// the UDP sender is always 127.0.0.1; posted messages name it, a second known host or none
+		if in.NB == 0 {
+			in.NB = 1
+		}
+		in.TapDelay, in.Parsers, in.Groups = nil, 0, 0
+		kinds := []string{"hit-pos", "hit-neg", "miss-pos", "miss-neg"}
+		in.Senders = []senderIn{{IP: "127.0.0.1", Kind: hlib.Pick(r, kinds), ID: "i-local", Tags: pickTags(r, 0, 3)},
+			{IP: "10.0.0.2", Kind: hlib.Pick(r, kinds), ID: "i-0002", Tags: pickTags(r, 0, 3)}}
+		idm := 500
+		for i, n := 0, r.Range(2, 6); i < n; i++ {
+			m := pbIn{Title: fmt.Sprintf("E%d.", idm) + rtext(r, 0, 5, true), Text: strings.ReplaceAll(rtext(r, 0, 10, true), "\\n", "\n"),
+				Date: hlib.Pick(r, []int64{0, 1, 1500000000}), Hostname: hlib.Pick(r, []string{"127.0.0.1", "10.0.0.2", "10.0.0.2", "", "web9"}),
+				AggKey: rtext(r, 0, 4, true), SrcType: hlib.Pick(r, []string{"", "nagios"}), Tags: pickTags(r, 0, 4),
+				Priority: hlib.Pick(r, []int32{0, 1}), Type: hlib.Pick(r, []int32{0, 1, 2, 3})}
+			if len(in.Static) > 0 && r.Bool() {
+				m.Tags = append(m.Tags, hlib.Pick(r, in.Static))
+			}
+			in.Msgs = append(in.Msgs, m)
+			idm++
+		}
 	}
 	utf8ok := in.Mode != "standalone" || r.Bool()
 	if nonUTF8Stream && k%40 == 27 { // a forwarded slot
